@@ -1061,8 +1061,31 @@ func shapeOf(p *Pkg, decl *ast.FuncDecl, sig *types.Signature) string {
 	tup(sig.Results())
 	var loops []string
 	lits := 0
+	fvs := map[string]bool{}
 	ast.Inspect(decl.Body, func(x ast.Node) bool {
 		switch s := x.(type) {
+		case *ast.CallExpr:
+			// calls through function VALUES (variables, fields, parameters of function type): contracts refer to them by
+			// their text (`extern $s.report`, `callpre fn`), and one without a contract havocs the heap
+			fun := ast.Unparen(s.Fun)
+			if _, isLit := fun.(*ast.FuncLit); !isLit {
+				if tv, ok := p.TypesInfo.Types[fun]; ok && !tv.IsType() && !tv.IsBuiltin() {
+					if _, isSig := tv.Type.Underlying().(*types.Signature); isSig {
+						isFunc := false
+						switch f := fun.(type) {
+						case *ast.Ident:
+							_, isFunc = p.TypesInfo.Uses[f].(*types.Func)
+						case *ast.SelectorExpr:
+							_, isFunc = p.TypesInfo.Uses[f.Sel].(*types.Func)
+						case *ast.IndexExpr, *ast.IndexListExpr:
+							isFunc = true // generic instantiation
+						}
+						if !isFunc {
+							fvs[exprText(fun)] = true
+						}
+					}
+				}
+			}
 		case *ast.ForStmt:
 			switch {
 			case s.Init != nil || s.Post != nil:
@@ -1079,6 +1102,11 @@ func shapeOf(p *Pkg, decl *ast.FuncDecl, sig *types.Signature) string {
 		}
 		return true
 	})
-	fmt.Fprintf(&b, ";loops=%s;lits=%d", strings.Join(loops, ","), lits)
+	var fvl []string
+	for k := range fvs {
+		fvl = append(fvl, k)
+	}
+	sort.Strings(fvl)
+	fmt.Fprintf(&b, ";loops=%s;lits=%d;fv=%s", strings.Join(loops, ","), lits, strings.Join(fvl, ","))
 	return strings.ReplaceAll(b.String(), "\n", " ")
 }
